@@ -1,5 +1,6 @@
 SPECIFICATION Spec
 CONSTANTS
+  Flight = "none"
   Hosts = {"a", "b", "x"}
   Clusters = {"A", "B"}
   Keys = {"k1"}
